@@ -84,6 +84,30 @@ def run(rep, pdb, tier):
             ok = good
             det += "; tested vector is the initial residual (or its preconditioned copy)=%s; x untouched before=%s" % (good, not xw_before)
         rep.add("accept-start/%s" % name, rule, ok, acc[0][0] if acc else fn["body"], det, where=loc(acc[0][0]) if acc else "%s:%d" % (fn["file"], fn["span"][0]))
+        # ---- failure exits inside the loop must be scale-invariant
+        rule = ("every `return Err(..)` inside the main loop is guarded by exact tests of a recurrence scalar against zero (a genuine breakdown), never by an "
+                "ordered comparison with a numeric literal: the recurrence scalars scale with ||b||^2, so an absolute threshold reports breakdown on a "
+                "well-posed system whose right-hand side is small (the property quantifies over right-hand sides of any scale)")
+        bad, n_err = [], 0
+        for n in walk(fn["body"]):
+            if n.get("k") != "Ret" or not any(a is sv.main for a in ancestors(n)):
+                continue
+            v = strip(n["e"]) if n.get("e") is not None else None
+            if v is None or v.get("k") != "Call" or not v["f"].get("fn", "").endswith("::Err"):
+                continue
+            n_err += 1
+            for a in ancestors(n):
+                if a is sv.main:
+                    break
+                if a.get("k") == "If":
+                    for at in cond_atoms(ctx, a["cond"], True) + cond_atoms(ctx, a["cond"], False):
+                        if at[0] in ("cmp", "ncmp") and at[1] in ("<", "<=", ">", ">="):
+                            lits = [t for t in (at[2], at[3]) if t[0] == "num" and t[1] != 0]
+                            if lits:
+                                bad.append((n, show(at[2], ctx), at[1], show(at[3], ctx)))
+        rep.add("breakdown-exact/%s" % name, rule, not bad, bad[0][0] if bad else fn["body"],
+                "Err exits in the loop: %d; absolute thresholds: %s" % (n_err, [b[1:] for b in bad]), where=loc(bad[0][0]) if bad else "%s:%d" % (fn["file"], fn["span"][0]))
+    rep.floor("breakdown-exact/", 4)
     rep.floor("zero-norm/", 4)
     rep.floor("accept-start/", 4)
     rep.assumptions += ["ONLY the degenerate-start clause of C09 is decided (zero right-hand side / exact initial guess are accepted with x untouched and no division by a zero norm)",
